@@ -113,8 +113,8 @@ func toStr(v value) (string, bool) {
 // exactly what Lua allows.
 type table struct {
 	arr     []value
-	liveArr int // non-nil slots in arr
-	top     int // highest index with a non-nil slot in arr, 0 if none
+	liveArr int     // non-nil slots in arr
+	top     int     // highest index with a non-nil slot in arr, 0 if none
 	hkeys   []value // nil key marks a dead slot
 	hvals   []value
 	hidx    map[value]int
